@@ -1078,3 +1078,81 @@ Proof.
   - apply decode_seq_mono. exact Hrep.
   - rewrite !app_length. unfold enc_hdr. rewrite app_length, length_be_enc. cbn [length]. lia.
 Qed.
+
+From V.c01 Require Import C01FileProofs.
+
+Lemma crop_tool_inv input ms out_bytes : crop_tool input ms = Some (Ok out_bytes) ->
+  exists ts ci out ranges swm, decode_file_sr input = FOk ts /\ scope input ts = Some ci /\
+    crop_tree ts ci ms = Ok (out, ranges, swm) /\ crop_tool_ts input ts ms = Some (Ok out_bytes).
+Proof.
+  unfold crop_tool. destruct (decode_file_sr input) as [ts| | | |] eqn:Ed; try discriminate. intros H.
+  pose proof H as H'. unfold crop_tool_ts in H. destruct (scope input ts) as [ci|] eqn:Es; [|discriminate].
+  injection H as H. destruct (crop_tree ts ci ms) as [[[out ranges] swm]| | |] eqn:Ec; try discriminate.
+  now exists ts, ci, out, ranges, swm.
+Qed.
+
+(* the statement of C10_output_file_bytes + C10_output_decodes *)
+Definition output_ok (input : list N) (ci : crop_in) (ts out : list mbox) (ranges : list (N * N)) (out_bytes : list N) : Prop :=
+  exists nd xs pre body,
+    out = out_tree nd xs ts /\
+    file_encode_w out = Ok pre /\ encode_seq false out = Ok pre /\ lenN pre = sumN (map size_box out) /\
+    write_mdat input true (ci_mdat ci) ranges = Ok (enc_hdr n_mdat (8 + lenN body) ++ body) /\
+    lenN body = ranges_size ranges 0 /\ 8 + lenN body < 4294967296 /\
+    out_bytes = pre ++ enc_hdr n_mdat (8 + lenN body) ++ body /\
+    decode_file out_bytes = Ok (out_tree_decoded nd xs ts ++ [mdat_box body]).
+
+Lemma crop_tool_decodes input ms out_bytes :
+  bytes_ok input = true -> crop_tool input ms = Some (Ok out_bytes) -> lenN out_bytes < 18446744073709551616 ->
+  exists ts ci out ranges swm, decode_file_sr input = FOk ts /\ scope input ts = Some ci /\
+    crop_tree ts ci ms = Ok (out, ranges, swm) /\
+    (forallb exact_box ts = true -> forallb tree_fits out = true -> output_ok input ci ts out ranges out_bytes).
+Proof.
+  intros Hok Htool Hlen. destruct (crop_tool_inv _ _ _ Htool) as (ts & ci & out & ranges & swm & Hd & Hs & Hc & Ht).
+  exists ts, ci, out, ranges, swm. repeat split; try assumption. intros Hex Hfits.
+  assert (Hdf : decode_file input = Ok ts).
+  { unfold decode_file_sr in Hd. exact (proj1 (loop_sound _ _ _ _ Hd (exact_no_trunc _ Hex))). }
+  exact (crop_output_decodes input ts ci ms out ranges swm out_bytes Hok Hdf Hex Hs Hc Ht Hfits Hlen).
+Qed.
+
+(* the bytes alone: no hypothesis on the input boxes *)
+Lemma crop_tool_file_bytes input ms out_bytes :
+  crop_tool input ms = Some (Ok out_bytes) -> lenN out_bytes < 18446744073709551616 ->
+  exists ts ci out ranges swm nd xs pre body,
+    decode_file_sr input = FOk ts /\ scope input ts = Some ci /\ crop_tree ts ci ms = Ok (out, ranges, swm) /\
+    out = out_tree nd xs ts /\ file_encode_w out = Ok pre /\ encode_seq false out = Ok pre /\
+    write_mdat input true (ci_mdat ci) ranges = Ok (enc_hdr n_mdat (8 + lenN body) ++ body) /\
+    lenN body = ranges_size ranges 0 /\ 8 + lenN body < 4294967296 /\
+    out_bytes = pre ++ enc_hdr n_mdat (8 + lenN body) ++ body.
+Proof.
+  intros Htool Hlen. destruct (crop_tool_inv _ _ _ Htool) as (ts & ci & out & ranges & swm & Hd & Hsc & Hct & Ht).
+  destruct (crop_tree_shape _ _ _ _ _ _ Hct) as (nd & xs & Hout).
+  unfold crop_tool_ts in Ht. rewrite Hsc, Hct in Ht. cbn [rbind] in Ht.
+  destruct (file_encode_w out) as [pre| | |] eqn:Epre; try discriminate. cbn [rbind] in Ht.
+  destruct (write_mdat input true (ci_mdat ci) ranges) as [mb| | |] eqn:Emb; try discriminate. cbn [rbind] in Ht.
+  injection Ht as <-.
+  destruct (few_inv _ _ Epre) as [Hef Hseq].
+  destruct (write_mdat_shape _ _ _ _ _ Emb) as (body & Hpsz & Hbl & ->).
+  rewrite !lenN_app in Hlen.
+  assert (Hb4 : lenN (C08Model.be32 (u32 (u64 (ranges_size ranges 0 + 8)))) = 4) by reflexivity.
+  assert (Hn4 : lenN C08Model.name_mdat = 4) by reflexivity.
+  assert (Hu : u64 (ranges_size ranges 0 + 8) = 8 + lenN body) by (unfold u64; rewrite N.mod_small by lia; lia).
+  rewrite Hu in *. rewrite (u32_small _ Hpsz) in *. rewrite (be32_be_enc _ Hpsz) in *.
+  change C08Model.name_mdat with n_mdat in *.
+  rewrite (app_assoc (be_enc 4 (8 + lenN body)) n_mdat body) in *. fold (enc_hdr n_mdat (8 + lenN body)) in *.
+  exists ts, ci, out, ranges, swm, nd, xs, pre, body. repeat split; assumption || reflexivity.
+Qed.
+
+(* the function the driver runs (one pass, with the extra observables) computes crop_tool *)
+Lemma report_is_tool input ms :
+  crop_tool input ms =
+  match crop_tool_report input ms with
+  | None => None
+  | Some r => Some (match r with Ok x => Ok (fst (fst x)) | Err => Err | Panic => Panic | OutOfFuel => OutOfFuel end)
+  end.
+Proof.
+  unfold crop_tool, crop_tool_report, crop_tool_ts. destruct (decode_file_sr input) as [ts| | | |]; try reflexivity.
+  destruct (scope input ts) as [ci|]; [|reflexivity].
+  destruct (crop_tree ts ci ms) as [[[out ranges] swm]| | |]; try reflexivity. cbn [rbind].
+  destruct (file_encode_w out) as [pre| | |]; try reflexivity. cbn [rbind].
+  destruct (write_mdat input true (ci_mdat ci) ranges) as [mb| | |]; reflexivity.
+Qed.
